@@ -2,7 +2,7 @@
 import e2
 
 TIE = ["Nsq.Tie.Chan", "Nsq.Tie.TopicEph"]
-PROPS = ["Nsq.Props.C01", "Nsq.Props.C01Live", "Nsq.Props.C01Topic", "Nsq.Props.C01PumpLedger", "Nsq.Props.C01Eph"]
+PROPS = ["Nsq.Props.C01", "Nsq.Props.C01Live", "Nsq.Props.C01Topic", "Nsq.Props.C01PumpLedger", "Nsq.Props.C01Eph", "Nsq.Props.C01Snap"]
 
 
 def run(ctx):
